@@ -179,6 +179,26 @@ def bqm_case(ctx, r, B, spec):
             ctx.case(('bqm', repr(spec), kw), nontrivial=True,
                      sample=dict(kind='bqm', options=kw, source=F.emit(spec), nbytes=len(data)) if r.random() < .02 else None)
             ctx.tick(f'bqm v{ver} ' + ('ignore_labels' if ign else 'labels'))
+            if r.random() < .35:
+                # round 8 (anchor coverage): the deprecated public entry point `fileview.FileView` and `readinto` of the file
+                # object `to_file` returns must give the very bytes of `to_file`
+                import warnings
+                from dimod.serialization.fileview import FileView
+                with warnings.catch_warnings():
+                    warnings.simplefilter('ignore')
+                    fvd = FileView(m0, version=ver, ignore_labels=ign)
+                buf, got = bytearray(max(1, len(data) // 3 + 1)), b''
+                while True:
+                    nread = fvd.readinto(buf)
+                    if not nread:
+                        break
+                    got += bytes(buf[:nread])
+                ctx.tick('bqm FileView + readinto')
+                if got != data or not (fvd.readable() and fvd.seekable()):
+                    ctx.fail('property', 'fileview.FileView', f'bqm v{ver} readinto', 'FileView(bqm) read through readinto does not give the bytes of to_file',
+                             repro=F.PRELUDE + F.emit(spec) + "import warnings\nfrom dimod.serialization.fileview import FileView\n"
+                             f"with warnings.catch_warnings():\n    warnings.simplefilter('ignore')\n    f = FileView(m, version={ver}, ignore_labels={ign})\n"
+                             f"buf = bytearray(1 << 20)\nn = f.readinto(buf)\nassert bytes(buf[:n]) == m.to_file({kw}).read()\n")
             check_property(ctx, spec, m0, 'bqm', data, kw, relabelled=ign,
                            which=None if r.random() < .25 else ['from_file(bytes)', 'fileview.load(BytesIO)'])
             # (i) correspondence
